@@ -7,7 +7,7 @@
 From Coq Require Import List NArith Bool String.
 Import ListNotations.
 From Indi Require Import Base.Sx Msg.Equality Router.Model Driver.Switch B64.Model Num.Model Driver.Model Driver.Props Driver.Write
-     Client.Model System.Model System.Write.
+     Client.Model Client.Norm System.Model System.Write System.Ops System.Deliver System.Handshake System.WriteE2E.
 
 (* text, number and BLOB properties: after the whole message, every element holds the last value a
    child of the message gave it and is exactly as before when no child names it; state, flags,
@@ -84,3 +84,21 @@ Theorem submit_sends_exactly_the_assigned_elements mi dn vn a d v :
                                             end) (cv_elems v)).
 Proof. exact (submit_children mi dn vn a d v). Qed.
 Print Assumptions submit_sends_exactly_the_assigned_elements.
+
+(* end to end in the composed system model: a connected network client submits a write; the server hands it to the
+   driver of the named device (what the driver does with it: the theorems above); what the driver publishes reaches
+   the client; afterwards nothing is in flight and the client's own view is in sync with the device again
+   (for writes that make the driver publish no BLOB update) *)
+Theorem a_submitted_write_end_to_end s c e d dn vn a m :
+  one_client s c dn -> one_device s e d -> d_name d = dn -> sy_cls s = [c] ->
+  cl_in_ctl c = [] -> cl_in_blob c = [] -> e <> cl_ctl c -> e <> cl_blob c ->
+  dev_ok d -> net_synced (cl_mirror c) d ->
+  submit_msg (cl_mirror c) dn vn a = Some m -> client_msg dn (wire m) ->
+  Forall (fun m' => is_blob_msg m' = false) (pubs (snd (from_client d (wire m)))) ->
+  exists c',
+    sy_cls (sstep s (SWrite 0 dn vn a)) = [c'] /\
+    find_dev (sstep s (SWrite 0 dn vn a)) e = Some (fst (from_client d (wire m))) /\
+    net_synced (cl_mirror c') (fst (from_client d (wire m))) /\
+    cl_in_ctl c' = [] /\ cl_in_blob c' = [].
+Proof. exact (client_write_end_to_end s c e d dn vn a m). Qed.
+Print Assumptions a_submitted_write_end_to_end.
